@@ -775,6 +775,31 @@ def r_nulled(e, R):
     def is_field(func, x):
         return isinstance(x, ast.Attribute) and x.attr in F and bool(set(e.pt.ev(func, x.value)) & ex)
 
+    # check-then-use on two different reads: a None-test on a local snapshot of a field that shutdown() nulls does not protect a
+    # *second read of the field itself* on the guarded branch -- a concurrent shutdown(wait=True) can null it in between
+    for q in sorted(a.executor_funcs):
+        f_ = e.prog.funcs[q]
+        if not f_.params:
+            continue
+        g_ = e.cfg(f_)
+        snaps = {}
+        for n in func_nodes(f_):
+            if isinstance(n, ast.Assign) and len(n.targets) == 1 and isinstance(n.targets[0], ast.Name) and is_field(f_, n.value):
+                snaps.setdefault(n.targets[0].id, set()).add(n.value.attr)
+        for t_ in [x for x in g_.nodes if x.kind == "test"]:
+            nt = none_test(t_.ast)
+            if not nt or not isinstance(nt[0], ast.Name) or nt[0].id not in snaps:
+                continue
+            for fld in snaps[nt[0].id]:
+                for n in g_.nodes:
+                    if n.kind not in ("stmt", "test", "with_enter") or not g_.on_branch(n, t_, nt[1]) or n.ast is None:
+                        continue
+                    rereads = [x for x in ast.walk(n.ast if not isinstance(n.ast, ast.withitem) else n.ast.context_expr)
+                               if isinstance(x, ast.Attribute) and isinstance(x.ctx, ast.Load) and x.attr == fld and is_field(f_, x)]
+                    for x in rereads:
+                        R.fail("R-NULLED", f_.short, f"re-read of {fld} under a test of its snapshot `{nt[0].id}`",
+                               f"`{norm(t_.ast)}` tests a snapshot of `{fld}`, but the guarded statement reads the attribute again (`{norm(x)}`): a concurrent "
+                               "shutdown(wait=True) that completes in between has set it to None and this call raises AttributeError", e.loc(f_, x))
     # when are the fields nulled?  If every nulling store of shutdown() is executed only after the manager thread was joined,
     # or when no manager thread exists, the MANAGER role can never observe a nulled field.
     sd = a.shutdown
